@@ -96,3 +96,42 @@ Definition processMDNS (c : mcache) (mac : bytes) (m : mmsg) : (list ipname * li
   else
     let '(v4, v6, model) := resp_loop (mm_resources m) [] [] [] in
     ((set_model model v4, set_model model v6), (mac, mm_id m) :: c).
+
+(* ------------------------------------------------------------------ *)
+(* The same with the cache clock: getMDNSCache / putMDNSCache read time.Now(); [now] (seconds) is an
+   argument.  An entry answers for (MAC, id) while its expiry is After(now); an expired entry is
+   deleted by the lookup and the response is processed again; put stores now + 5 minutes. *)
+Definition MDNS_CACHE_SECONDS : Z := 300.
+Definition mcache_t : Type := list (bytes * N * Z).   (* MAC, id, expiry *)
+
+Definition key_is (mac : bytes) (id : N) (k : bytes * N * Z) : bool :=
+  bytes_eqb (fst (fst k)) mac && (snd (fst k) =? id).
+
+Fixpoint cache_find (c : mcache_t) (mac : bytes) (id : N) : option Z :=
+  match c with
+  | [] => None
+  | k :: r => if key_is mac id k then Some (snd k) else cache_find r mac id
+  end.
+
+Definition cache_delete (c : mcache_t) (mac : bytes) (id : N) : mcache_t :=
+  filter (fun k => negb (key_is mac id k)) c.
+
+(* h.mdnsCache[key] = cache{...}: Go map assignment replaces *)
+Definition cache_put (c : mcache_t) (mac : bytes) (id : N) (expiry : Z) : mcache_t :=
+  (mac, id, expiry) :: cache_delete c mac id.
+
+Definition processMDNS_at (c : mcache_t) (mac : bytes) (now : Z) (m : mmsg)
+  : (list ipname * list ipname) * mcache_t :=
+  if negb (mm_response m) then
+    let '(name, manu) := query_loop (mm_questions m) [] [] in
+    if nonempty name || nonempty manu then (([mkIPN [] name [] manu], []), c) else (([], []), c)
+  else
+    let fresh := match cache_find c mac (mm_id m) with
+                 | Some expiry => (now <? expiry)%Z      (* c.expiry.After(time.Now()) *)
+                 | None => false
+                 end in
+    if fresh then (([], []), c)
+    else
+      let c1 := cache_delete c mac (mm_id m) in            (* delete(h.mdnsCache, key) when expired *)
+      let '(v4, v6, model) := resp_loop (mm_resources m) [] [] [] in
+      ((set_model model v4, set_model model v6), cache_put c1 mac (mm_id m) (now + MDNS_CACHE_SECONDS)%Z).
